@@ -8,6 +8,7 @@ import (
 	"go/types"
 	"os"
 	"sort"
+	"strconv"
 	"strings"
 	"sync"
 
@@ -21,6 +22,11 @@ func sortStrings(s []string) { sort.Strings(s) }
 func (x *Exec) bindArgs(sig *types.Signature, args []Val) map[string]Val {
 	names := map[string]Val{}
 	i := 0
+	if sig.Recv() == nil && len(args) == sig.Params().Len()+1 {
+		// interface method called with its receiver prepended
+		names["recv"] = args[0]
+		i = 1
+	}
 	if sig.Recv() != nil {
 		if len(args) > 0 {
 			n := sig.Recv().Name()
@@ -239,6 +245,13 @@ func (e *SpecEnv) evalLoc(m ast.Expr) []Loc {
 			case "val":
 				a := e.eval(n.Args[0])
 				return []Loc{{kind: "bigval", ref: a.S}}
+			case "ghall":
+				lit, ok := n.Args[0].(*ast.BasicLit)
+				if !ok {
+					sfail("modifies: ghall(\"name\")")
+				}
+				nm, _ := strconv.Unquote(lit.Value)
+				return []Loc{{kind: "ghostall", key: "G." + nm}}
 			case "elems":
 				a := e.eval(n.Args[0])
 				if a.K != KSlice {
@@ -252,6 +265,15 @@ func (e *SpecEnv) evalLoc(m ast.Expr) []Loc {
 				return nil
 			}
 		}
+		if id != nil && id.Name == "gh" && len(n.Args) == 2 {
+			lit, ok := n.Args[0].(*ast.BasicLit)
+			if !ok {
+				sfail("modifies: gh(\"name\", key)")
+			}
+			nm, _ := strconv.Unquote(lit.Value)
+			k := e.eval(n.Args[1])
+			return []Loc{{kind: "cell", key: "G." + nm, ref: k.S, t: mathInt}}
+		}
 	}
 	sfail("modifies: unsupported location %s", exprString(m))
 	return nil
@@ -261,7 +283,13 @@ func (x *Exec) havocLoc(st *State, l Loc) {
 	switch l.kind {
 	case "all":
 		x.havocAll(st)
+	case "ghostall":
+		x.havocKey(st, l.key, mathInt)
 	case "field", "cell":
+		if l.t == mathInt {
+			x.writeComps(st, l.key, l.t, l.ref, Val{K: KInt, S: x.decls.Fresh("ghv", "Int")})
+			return
+		}
 		fv := x.freshVal(st, l.t, "mod")
 		x.writeComps(st, l.key, l.t, l.ref, fv)
 	case "obj":
